@@ -62,7 +62,11 @@ RecSparse = recording(SparseHeightMap)
 def check_path(col, fail, hm, line, tol, kind, on_line_eps):
     """sample_path oracle shared by both map kinds. Returns False on violation."""
     hm._cands = []
-    pts = hm.sample_path(line)
+    try:
+        pts = hm.sample_path(line)
+    except Exception as e:      # a well-formed line (four finite numbers) must be sampled
+        hm._cands = None
+        return fail("sample_path-raised-on-a-valid-line", line=line, error=repr(e))
     cands = list(hm._cands)
     hm._cands = None
     col.count("paths_checked")
@@ -138,8 +142,15 @@ def raster_case(ctx, col, case, rng, tmp):
     hm = RecRaster(img)
     scale = 10 ** rng.uniform(-1, 2)
     tol = 10 ** rng.uniform(-3, 0) * scale
-    hm.set_scale(scale)
-    hm.set_tolerance(tol)
+    try:
+        hm.set_scale(scale)
+        hm.set_tolerance(tol)
+    except ValueError as e:
+        # the statement is quantified over all positive scales and tolerances
+        col.violation("positive-scale-or-tolerance-rejected", ctx.case_ref(case),
+                      {"kind": "raster", "scale": scale, "tolerance": tol, "error": repr(e)},
+                      mechanism="c19:raster:configuration-rejected")
+        return False
     info = {"kind": "raster", "size": [w, h], "bits": bits, "scale": scale, "tolerance": tol, "style": style}
 
     def fail(what, **d):
@@ -203,8 +214,15 @@ def sparse_case(ctx, col, case, rng, tmp):
     hm = RecSparse(pts)
     scale = 10 ** rng.uniform(-1, 2)
     tol = 10 ** rng.uniform(-2, 0) * scale
-    hm.set_scale(scale)
-    hm.set_tolerance(tol)
+    try:
+        hm.set_scale(scale)
+        hm.set_tolerance(tol)
+    except ValueError as e:
+        # the statement is quantified over all positive scales and tolerances
+        col.violation("positive-scale-or-tolerance-rejected", ctx.case_ref(case),
+                      {"kind": "sparse", "scale": scale, "tolerance": tol, "error": repr(e)},
+                      mechanism="c19:sparse:configuration-rejected")
+        return False
     info = {"kind": "sparse", "points": n, "span": span, "scale": scale, "tolerance": tol}
 
     def fail(what, **d):
@@ -282,7 +300,11 @@ def flat_case(ctx, col, case, rng):
             col.violation("flat-map-nonzero", ctx.case_ref(case), {"x": x, "y": y})
             return
     line = [rng.uniform(-50, 50) for _ in range(4)]
-    pts = np.asarray(hm.sample_path(line))
+    try:
+        pts = np.asarray(hm.sample_path(line))
+    except Exception as e:
+        col.violation("sample_path-raised-on-a-valid-line", ctx.case_ref(case), {"kind": "flat", "line": line, "error": repr(e)})
+        return
     col.count("paths_checked")
     if pts.shape != (2, 3) or list(pts[0]) != [line[0], line[1], 0.0] or list(pts[1]) != [line[2], line[3], 0.0]:
         col.violation("flat-map-path", ctx.case_ref(case), {"line": line, "points": pts.tolist()})
